@@ -35,10 +35,18 @@ def config(tier):
 
 
 def gen_case(rng, index, tier):
-    L = gen.make_layout(rng)
+    want_fb = rng.random() < 0.15
+    if want_fb:
+        # the entry's volume has no usable trash dir: with both fallback
+        # switches on it is COPIED to the home trash and copied back by restore
+        L = gen.make_layout(rng, volumes=['v1'], home_own_volume=False,
+                            xdg='unset', top_states={'v1': 'file'},
+                            alt_states={'v1': 'file'})
+    else:
+        L = gen.make_layout(rng)
     workdirs = c01.setup_workdirs(L, rng)
     tag = 'c%d' % index
-    v = rng.choice(L.mounts)
+    v = rng.choice(L.mounts) if not want_fb else 'v1'
     # the entry lives in its own sub-directory so that the parent can be removed
     d = workdirs[v] + '/proj ' + str(index % 7)
     L.add({'p': d, 't': 'd', 'm': 0o755})
@@ -51,7 +59,11 @@ def gen_case(rng, index, tier):
     if arg['spelling'].startswith('-'):
         arg['spelling'] = './' + arg['spelling']
     opts, stdin, env_extra, optclass = c01.pick_options(
-        L, rng, wd, [arg], index, allowed=['none', 'none', '--trash-dir', '-v'])
+        L, rng, wd, [arg], index,
+        allowed=['none', 'none', '--trash-dir', '-v', '--home-fallback'])
+    if want_fb:
+        opts, env_extra, optclass = ['--home-fallback'], \
+            {'TRASH_ENABLE_HOME_FALLBACK': '1'}, '--home-fallback+env'
     # other entries for the history
     others = []
     for j in range(3):
@@ -126,6 +138,18 @@ def run_case(case):
         out['features'] += ['kind:' + a['kind'], 'opt:' + case['optclass'],
                             'from:' + case['restore_from'],
                             'sort:%s' % case['sort']]
+        known_link = o['state'] == 'ALTERED' and o.get('only_symlink_mtime') \
+            and c01.fallback_on(case)
+        if known_link:
+            o = dict(o, state='TRASHED', trash=putcheck.trash_of(o['payload']),
+                     info=putcheck.info_for_payload(o['payload']))
+        elif o['state'] not in ('TRASHED', 'UNTOUCHED', 'NOTHING'):
+            # the first half of the round trip already damaged the entry
+            out['violations'].append({
+                'mechanism': 'put-left-entry-%s' % o['state'],
+                'detail': {'put': r.brief(), 'outcome': {
+                    k: v for k, v in o.items() if k != 'diff'},
+                    'diff': o.get('diff')}})
         if o['state'] != 'TRASHED':
             obs['not_trashed'] = 1
             out['nontrivial'] = False
@@ -227,7 +251,15 @@ def run_case(case):
         acc(rr)
         sa = putcheck.norm_sig(w.snapshot())
         sigR = snap.subtree(sa, P)
-        if sigR != sig0:
+        only_link_mtime = sigR != sig0 and set(sigR) == set(sig0) and all(
+            sigR[k] == sig0[k] or (sigR[k][0] == 'l' and sig0[k][0] == 'l' and
+                                   sigR[k][:6] == sig0[k][:6]) for k in sig0)
+        if only_link_mtime and c01.fallback_on(case):
+            # the C01 known finding (cross-device copy recreates symlinks
+            # without their mtime) seen through the round trip
+            viol('fallback-copy-loses-symlink-mtime',
+                 diff=snap.fmt_diff(snap.sig_diff(sig0, sigR), 4))
+        elif sigR != sig0:
             viol('restored-entry-differs',
                  diff=snap.fmt_diff(snap.sig_diff(sig0, sigR), 8),
                  restore=rr.brief())
